@@ -487,7 +487,7 @@ func TestCheck(t *testing.T) {
 		runCase(r, rp.Fam, rp.Idx)
 		return
 	}
-	n := r.Pick(3000, 100000)
+	n := r.Pick(3000, 250000)
 	for i := 0; i < n; i++ {
 		if r.Mine(i) && !stopShard {
 			runCase(r, []string{"server4", "server6"}[i%2], i)
